@@ -4,6 +4,7 @@ import Driver.Loop
 import Driver.C01
 import Driver.C01E
 import Driver.C01N
+import Driver.C01D
 import Driver.C02
 import Driver.C03
 import Driver.C04
@@ -33,6 +34,7 @@ def allHandlers : List (String × Handler) :=
   C01.handlers ++
   C01E.handlers ++
   C01N.handlers ++
+  C01D.handlers ++
   C02.handlers ++
   C03.handlers ++
   C04.handlers ++
